@@ -142,3 +142,78 @@ R.contract(
                         ("earlier", "forall(k, implies(0 <= k and k < old(len(" + _W + ")), " + _W + "[k] is old(" + _W + "[k])))"),
                         ("same-writer", "self._writer is old(self._writer) and self._writer is not None")])},
     props=["C04"])
+
+
+# ---------------------------------------------------------------------------------------------------------------------------------
+# VcfReader._extract_GT_PS_phase (C09: the decoder of GT/PS phase) and the ROUND TRIP with the writer's _set_PS as a client lemma over the two contracts
+OPTINT = PM.OPTINT
+R.declare_class("VariantCallPhase", {"block_id": INT, "phase": LIST(OPTINT), "quality": OPTINT})
+R.ctor_fields["VariantCallPhase"] = ["block_id", "phase", "quality"]
+_SAME_GT = "forall(i, implies(0 <= i and i < len(call.gt), call.gt[i] == call.gt[0]))"
+R.contract(
+    "VcfReader._extract_GT_PS_phase", params={"call": REF("Call")}, returns=REF("VariantCallPhase"),
+    requires=[("has-genotype", "not call.gt_none and len(call.gt) >= 1")],
+    ensures=[
+        ("a-phase-is-reported-exactly-for-phased-heterozygous-calls", "(result is None) == (not call.phased or " + _SAME_GT + ")"),
+        ("the-phase-is-the-genotype-in-order", "implies(result is not None, len(result.phase) == len(call.gt) and forall(i, implies(0 <= i and i < len(call.gt), result.phase[i] == call.gt[i])))"),
+        ("the-block-is-the-PS-value", "implies(result is not None and tag('PS') in call.tag_int and tag('PS') not in call.tag_none, result.block_id == call.tag_int[tag('PS')])"),
+    ],
+    modifies=[], extra={"allocates": ["VariantCallPhase"], "nullable": {"result": True}},
+    props=["C09"])
+
+R.client_lemmas["L#set_PS-then-extract_GT_PS_phase"] = '''
+def roundtrip(self, call, component, phase, haploid_component):
+    self._set_PS(call, component, phase, haploid_component)
+    decoded = _extract_GT_PS_phase(call)
+    return decoded
+'''
+R.contract(
+    "L#set_PS-then-extract_GT_PS_phase",
+    params={"self": REF("PVW"), "call": REF("Call"), "component": INT, "phase": LIST(INT), "haploid_component": MAYBE(LIST(INT))}, returns=REF("VariantCallPhase"),
+    requires=[("owner", "call.rec is not None and not call.rec.frozen"), ("heterozygous-phase", "len(phase) >= 2 and exists(i, 0 <= i and i < len(phase) and phase[i] != phase[0])")],
+    ensures=[("round-trip", "result is not None and result.block_id == component + 1 and len(result.phase) == len(phase) and "
+                            "forall(i, implies(0 <= i and i < len(phase), result.phase[i] == phase[i]))")],
+    modifies=["Call.gt", "Call.gt_none", "Call.ph", "Call.tag_none", "Call.tag_int", "Call.tag_list"],
+    extra={"allocates": ["VariantCallPhase"], "nullable": {"result": True}},
+    props=["C09"])
+
+
+def canary_extract():
+    import copy
+    c = copy.copy(R.contracts["VcfReader._extract_GT_PS_phase"])
+    c.ensures = [("wrong", "(result is None) == (not call.phased)")]      # "homozygous phased calls are reported too"
+    return c
+
+
+R.canaries.append(("vcf.py:canary#extract-reports-homozygous-calls", canary_extract))
+
+
+def canary_roundtrip():
+    import copy
+    c = copy.copy(R.contracts["L#set_PS-then-extract_GT_PS_phase"])
+    c.ensures = [("wrong", "result is not None and result.block_id == component")]      # "the phase set id is the component itself"
+    return c
+
+
+R.canaries.append(("vcf.py:canary#round-trip-off-by-one", canary_roundtrip))
+
+
+# "never mix old and new phase", at the level of the decoder: once _remove_existing_phasing has run for a sample, the GT/PS decoder reports NO phase for that
+# sample's call (unless the run writes a new one afterwards) -- a client lemma over the two contracts.  A diploid-or-higher call loses its phase bits; a haploid
+# call (vacuously "phased" in pysam) is homozygous by definition.
+R.client_lemmas["L#remove_existing_phasing-then-extract_GT_PS_phase"] = '''
+def removed_then_decoded(self, record, samples, j):
+    self._remove_existing_phasing(record, samples)
+    call = record.samples[j]
+    return _extract_GT_PS_phase(call)
+'''
+R.contract(
+    "L#remove_existing_phasing-then-extract_GT_PS_phase",
+    params={"self": REF("PVW"), "record": REF("Record"), "samples": LIST(INT), "j": INT}, returns=REF("VariantCallPhase"),
+    requires=list(R.contracts["PhasedVcfWriter._remove_existing_phasing"].requires) + [
+        ("a-target-sample-with-a-genotype", "0 <= j and j < len(record.calls) and exists(s, 0 <= s and s < len(samples) and samples[s] == j) and "
+                                            "tag('GT') in record.fmt and not record.calls[j].gt_none and len(record.calls[j].gt) >= 1")],
+    ensures=[("no-stale-phase-is-decoded", "result is None")],
+    modifies=["Call.gt", "Call.gt_none", "Call.ph", "Call.tag_none"],
+    extra={"allocates": ["VariantCallPhase"], "nullable": {"result": True}},
+    props=["C09"])
